@@ -14,6 +14,9 @@ LABRUN_NOTE = ('Trusted: TLC; the hook placement of DESIGN 6.1 (events are emitt
 SAVE_NOTE = ('Trusted: TLC; pickle/json/sha1; the kernel decides which buffered bytes survive a kill (half-writes are forced '
              'explicitly); injection happens at the Storage API / IO object level and at executed labtech lines.')
 
+HIST_NOTE = ('Trusted: TLC; structural comparison of values; histories bounded to 3-4 calls over 3-4 task universes; '
+             'the universe task types of lv/universe.')
+
 CHECKS = {
     'C01': ('LabRunAbs C01_Keys/C01_Values/C01_Digest: TLC checks them on LabRun (all DAGs on 3 tasks x request lists x '
             'cache pre-states x backends x worker counts) through the refinement mapping, then every execution of the real '
@@ -31,6 +34,13 @@ CHECKS = {
             'both continue_on_failure values; model-checked, then monitored on real executions on all three backends.', '7 C10'),
     'C11': ('Safety C11_NoIdleWait / C11_NoSpin (monitor) plus TLC liveness <>Terminated under fairness on LabRun; hangs of '
             'the real code are decided from the coordinator\'s own poll events, not from clocks.', '7 C11'),
+    'C06': ('CacheHistory (the Lab as a plain map over time): TLC enumerates all Run/Uncache histories up to the bound over small '
+            'universes; sampled histories are replayed on real Labs (providers x cache formats x serial/fork/spawn; later calls in '
+            'fresh interpreters under other hash seeds); CacheHistoryTrace recomputes each call on the map and checks '
+            'C06_NoRunOnHit / LoadReturnsStored / MetaPreserved / CachedAfterRun against what was returned and observable.', '7 C06'),
+    'C08': ('Same machinery, formulas C08_RunExecutesWhatItNeeds / MapEvolution / EntryValues / NothingElseStored (and C09_Listing): '
+            'after every call is_cached of every task, cached_tasks per type, a load of every entry and the key count must equal '
+            'the map model; cache=None types, Lab(storage=None), LocalStorage and an fsspec-backed storage.', '7 C08'),
     'C12': ('SaveProtocol NoPoison after every single Raise: TLC model-checks the save protocol (first save, overwrite); on the '
             'code, the k-th storage/IO operation and the k-th executed line of the save path raise, for every k, over result '
             'shapes x cache formats x first/overwrite x providers; SaveProtocol!ObsPoison judges what a later Lab observes.', '7 C12'),
@@ -64,11 +74,13 @@ def main():
             'thorough_cmd': f'./check {pid} --tier thorough',
             'evidence_file': f'/verif/evidence/{pid}.json',
             'replay_cmd_template': './check --replay {path}',
-            'engine': 'tlc-save' if pid in ('C12', 'C13') else 'tlc-labrun',
+            'engine': 'tlc-save' if pid in ('C12', 'C13') else ('tlc-history' if pid in ('C06', 'C08') else 'tlc-labrun'),
             'level_claimed': {'category': 'model_checking', 'text': text, 'design_ref': f'DESIGN.md section {ref}'},
-            'level_note': SAVE_NOTE if pid in ('C12', 'C13') else LABRUN_NOTE,
+            'level_note': SAVE_NOTE if pid in ('C12', 'C13') else (HIST_NOTE if pid in ('C06', 'C08') else LABRUN_NOTE),
             'technique': ('explicit TLA+ spec (SaveProtocol) model-checked with TLC + exhaustive fault/crash injection into the real save, observations judged by the spec (SaveObs)'
                           if pid in ('C12', 'C13') else
+                          'explicit TLA+ spec (CacheMap/CacheHistory) explored with TLC; TLC-generated call histories replayed on real Labs and validated call by call against the spec (CacheHistoryTrace)'
+                          if pid in ('C06', 'C08') else
                           'explicit TLA+ spec (LabRunAbs/LabRun) model-checked with TLC + trace validation of real executions against the property-level spec, schedules generated by TLC'),
         })
     m = {
@@ -80,7 +92,9 @@ def main():
                   'source_commits': hook_commits, 'add_only': True},
         'engines': [{'name': 'tlc-save', 'path': '/verif/spec/SaveProtocol.tla', 'serves_properties': ['C12', 'C13'],
                      'kind_free_text': 'TLC 1.8 on SaveProtocol/SaveObs; lv/rigs/savefault.py injects faults and crashes into the real save'},
-                    {'name': 'tlc-labrun', 'path': '/verif/spec/LabRun.tla', 'serves_properties': sorted(p for p in CHECKS if p not in ('C12', 'C13')),
+                    {'name': 'tlc-history', 'path': '/verif/spec/CacheHistory.tla', 'serves_properties': ['C06', 'C08'],
+                     'kind_free_text': 'TLC 1.8 on CacheMap/CacheHistory/CacheHistoryTrace; lv/rigs/history.py replays histories on real Labs'},
+                    {'name': 'tlc-labrun', 'path': '/verif/spec/LabRun.tla', 'serves_properties': sorted(p for p in CHECKS if p not in ('C12', 'C13', 'C06', 'C08')),
                      'kind_free_text': 'TLC 1.8 on explicit TLA+ specifications; Python rigs drive /repo along TLC behaviours and record traces'}],
         'checks': checks,
         'notes': 'see DESIGN.md; known findings and fixed defects in known_findings.json',
